@@ -1,8 +1,178 @@
-From Coq Require Import ZArith List Bool.
-Require Import SkV.Lib.Base SkV.C15.Model SkV.C15.Proofs.
+(* C15 property theorems: statements only, each closed by `exact` and followed by Print Assumptions.
+   Containers are the list structures of Model.v, polymorphic in the value type V; `panel V` is
+   instance x variable x time; wf_panel n c T p: rectangular with n >= 1, c >= 1, T >= 2
+   (decided by wf_panelb); wf_nested adds as many pairwise distinct column names as variables. *)
+From Coq Require Import ZArith List Bool Permutation Sorted.
+Require Import SkV.Lib.Base SkV.C15.Model SkV.C15.Lemmas SkV.C15.Proofs SkV.C15.Long SkV.C15.Paths
+  SkV.C15.Main.
 Import ListNotations.
 Open Scope Z_scope.
 
-Theorem C15_placeholder : forall (V : Type) (x : nested V), nested_to_3d x = n_rows x.
-Proof. exact placeholder_nested_3d. Qed.
-Print Assumptions C15_placeholder.
+(* the boolean well-formedness predicates decide the propositional ones used below *)
+Theorem C15_wf_boolean_reflects : forall V n c T (x : nested V) (p : panel V),
+  (wf_panelb n c T p = true <-> wf_panel n c T p) /\
+  (wf_nestedb n c T x = true <-> wf_nested n c T x).
+Proof. exact @wf_reflect. Qed.
+Print Assumptions C15_wf_boolean_reflects.
+
+(* nested <-> 3-D array: values, shape, orders, names (when passed back) and cell kind return *)
+Theorem C15_roundtrip_nested_3d : forall V n c T (x : nested V),
+  wf_nested n c T x ->
+  a3_to_nested (Some (n_cols x)) (n_kind x) (nested_to_3d x) = x /\
+  (forall cn k, nested_to_3d (a3_to_nested cn k (nested_to_3d x)) = nested_to_3d x).
+Proof. exact @main_roundtrip_nested_3d. Qed.
+Print Assumptions C15_roundtrip_nested_3d.
+
+(* 3-D array <-> multi-index frame *)
+Theorem C15_roundtrip_3d_multiindex : forall V n c T (X : panel V) cn,
+  wf_panel n c T X -> names_ok c cn ->
+  mi_to_3d (a3_to_mi cn X) = X /\
+  a3_to_mi (Some (m_cols (a3_to_mi cn X))) (mi_to_3d (a3_to_mi cn X)) = a3_to_mi cn X.
+Proof. exact @main_roundtrip_3d_mi. Qed.
+Print Assumptions C15_roundtrip_3d_multiindex.
+
+(* nested <-> multi-index frame (names carried both ways) *)
+Theorem C15_roundtrip_nested_multiindex : forall V n c T (x : nested V),
+  wf_nested n c T x ->
+  mi_to_nested (n_kind x) (nested_to_mi x) = x /\
+  (forall k, nested_to_mi (mi_to_nested k (nested_to_mi x)) = nested_to_mi x).
+Proof. exact @main_roundtrip_nested_mi. Qed.
+Print Assumptions C15_roundtrip_nested_multiindex.
+
+(* nested -> long -> nested: same instances and time order, variables rearranged into the order of
+   their sorted identifiers, names replaced by column_names / var_i (see Refuted.v) *)
+Theorem C15_roundtrip_nested_long : forall V n c T (x : nested V) cn,
+  wf_nested n c T x ->
+  long_to_nested cn (nested_to_long x) =
+  mkN KSeries (names_or_default cn c) (sort_vars (n_cols x) (n_rows x)) /\
+  wf_panel n c T (sort_vars (n_cols x) (n_rows x)).
+Proof. exact @main_roundtrip_nested_long. Qed.
+Print Assumptions C15_roundtrip_nested_long.
+
+Theorem C15_long_orders_by_identifier : forall V,
+  (forall L : long V, Sorted name_lt (m_cols (long_pivot L))) /\
+  (forall n c T (x : nested V), wf_nested n c T x ->
+     Sorted name_lt (sort_names (n_cols x)) /\
+     Permutation (sort_names (n_cols x)) (n_cols x) /\
+     (forall inst, In inst (n_rows x) ->
+        Permutation (select (sort_names (n_cols x)) (n_cols x) inst) inst) /\
+     (Sorted name_lt (n_cols x) -> sort_vars (n_cols x) (n_rows x) = n_rows x)).
+Proof. exact @main_long_orders_by_identifier. Qed.
+Print Assumptions C15_long_orders_by_identifier.
+
+(* the rows of a long table may come in any order *)
+Theorem C15_long_row_order_irrelevant : forall V n c T (x : nested V) cn (L : long V),
+  wf_nested n c T x -> Permutation (nested_to_long x) L ->
+  long_to_nested cn L = long_to_nested cn (nested_to_long x).
+Proof. exact @main_long_row_order_irrelevant. Qed.
+Print Assumptions C15_long_row_order_irrelevant.
+
+(* 2-D table: table -> nested -> table is the identity; nested/3-D -> table -> nested keeps
+   instances and values, concatenating the variables (in their order) into one: the identity for
+   one column *)
+Theorem C15_roundtrip_2d_table : forall V,
+  (forall k (t : tab2 V), nested_to_2d (tab_to_nested k t) = t) /\
+  (forall k (x : nested V), tab_to_nested k (nested_to_2d x) = mkN k [NInt 0] (flattenp (n_rows x))) /\
+  (forall k (X : panel V), tab_to_nested k (a3_to_2d X) = mkN k [NInt 0] (flattenp X)) /\
+  (forall n T (p : panel V), wf_panel n 1 T p -> flattenp p = p) /\
+  (forall n c T (p : panel V), wf_panel n c T p -> wf_panel n 1 (c * T) (flattenp p)).
+Proof. exact @main_roundtrip_2d. Qed.
+Print Assumptions C15_roundtrip_2d_table.
+
+(* every conversion, hence every path of any length, is: transform the canonical panel (sem),
+   then render the end container from it *)
+Theorem C15_paths_factor_through_panel : forall V es t (c : @cpanel V),
+  cwf c -> path_ok es (t, c) -> run_path es (render t c) = result (sem_path es (t, c)).
+Proof. exact @path_factor. Qed.
+Print Assumptions C15_paths_factor_through_panel.
+
+Theorem C15_all_paths_agree : forall V es1 es2 t (c : @cpanel V),
+  cwf c -> path_ok es1 (t, c) -> path_ok es2 (t, c) ->
+  sem_path es1 (t, c) = sem_path es2 (t, c) ->
+  run_path es1 (render t c) = run_path es2 (render t c).
+Proof. exact @paths_agree. Qed.
+Print Assumptions C15_all_paths_agree.
+
+(* paths that avoid "2-D table -> nested" and "long -> nested" return the very same data *)
+Theorem C15_lossless_paths_keep_data : forall V es t (c : @cpanel V) r,
+  cwf c -> path_ok es (t, c) -> forallb lossless es = true ->
+  run_path es (render t c) = Ok r ->
+  exists t' c', r = render t' c' /\ c_data c' = c_data c /\ cwf c'.
+Proof. exact @main_lossless_paths_keep_data. Qed.
+Print Assumptions C15_lossless_paths_keep_data.
+
+Theorem C15_direct_equals_indirect : forall V n c T (x : nested V),
+  wf_nested n c T x ->
+  nested_to_mi x = a3_to_mi (Some (n_cols x)) (nested_to_3d x) /\
+  nested_to_2d x = a3_to_2d (nested_to_3d x) /\
+  nested_to_3d x = mi_to_3d (nested_to_mi x) /\
+  (forall k, a3_to_nested (Some (n_cols x)) k (nested_to_3d x) =
+             mi_to_nested k (a3_to_mi (Some (n_cols x)) (nested_to_3d x))) /\
+  (forall k, mi_to_nested k (nested_to_mi x) =
+             a3_to_nested (Some (n_cols x)) k (mi_to_3d (nested_to_mi x))).
+Proof. exact @main_direct_equals_indirect. Qed.
+Print Assumptions C15_direct_equals_indirect.
+
+(* names at the end of a path = names at the start iff every conversion on it carries names;
+   otherwise they do not depend on the names at the start at all *)
+Theorem C15_names_survive_iff_carried : forall V es t (c : @cpanel V) t' c',
+  sem_path es (t, c) = Some (t', c') ->
+  (all_carry es t = true -> c_names c' = c_names c) /\
+  (all_carry es t = false ->
+   forall c2 t2 c2', sem_path es (t, c2) = Some (t2, c2') -> c_names c2' = c_names c').
+Proof. exact @names_survive_iff_carried. Qed.
+Print Assumptions C15_names_survive_iff_carried.
+
+(* is_nested_dataframe is True exactly when some cell is Series-/array-valued; are_columns_nested
+   says so per column *)
+Theorem C15_nested_predicate_iff_series_cells : forall V (f : frame V),
+  frame_rect f ->
+  (is_nested_dataframe f = true <->
+   exists row cl, In row (f_rows f) /\ In cl row /\ cell_nested cl = true) /\
+  (forall j, (j < f_ncol f)%nat ->
+     nth j (are_columns_nested f) false =
+     existsb (fun r => cell_nested (nth j r CObj)) (f_rows f)).
+Proof.
+  exact (fun V f H => conj (@is_nested_iff V f H) (fun j Hj => @are_columns_nested_nth V f j H Hj)).
+Qed.
+Print Assumptions C15_nested_predicate_iff_series_cells.
+
+Theorem C15_containers_nestedness : forall V,
+  (forall n c T (x : nested V), wf_panel n c T (n_rows x) -> length (n_cols x) = c ->
+     is_nested_dataframe (frame_of_nested x) = true /\
+     are_columns_nested (frame_of_nested x) = repeat true c) /\
+  (forall ncol (rows : list (list V)), Forall (fun r => length r = ncol) rows ->
+     is_nested_dataframe (frame_of_prims ncol rows) = false).
+Proof. exact (fun V => conj (@nested_frames_are_nested V) (@prim_frames_not_nested V)). Qed.
+Print Assumptions C15_containers_nestedness.
+
+Theorem C15_check_X_coercions : forall V n c T (X : panel V) (x : nested V),
+  wf_panel n c T X ->
+  (forall r : rep V, check_X true true r = Err) /\
+  check_X false true (RA X) = Ok (RN (mkN KSeries (default_names c) X)) /\
+  check_X true false (RN x) = Ok (RA (n_rows x)) /\
+  (forall a, check_X a false (RA X) = Ok (RA X)) /\
+  (forall b, check_X false b (RN x) = Ok (RN x)) /\
+  (forall r : rep V, match r with RN _ | RA _ => True | _ => forall a b, check_X a b r = Err end).
+Proof. exact @main_check_X. Qed.
+Print Assumptions C15_check_X_coercions.
+
+Theorem C15_shapes : forall V n c T (x : nested V),
+  wf_nested n c T x ->
+  length (m_rows (nested_to_mi x)) = (n * T)%nat /\
+  (forall r, In r (m_rows (nested_to_mi x)) -> length (snd r) = c) /\
+  length (nested_to_long x) = (n * T * c)%nat /\
+  rect n (c * T) (nested_to_2d x) /\
+  rect n c (nested_to_3d x) /\ (forall inst, In inst (nested_to_3d x) -> rect c T inst).
+Proof. exact @main_shapes. Qed.
+Print Assumptions C15_shapes.
+
+(* the hypotheses are satisfiable: a 2 x 2 x 2 panel with unsorted names "b", "a" *)
+Example C15_nonvacuous :
+  let x := mkN KArray [NStr [98]; NStr [97]] [[[1; 2]; [3; 4]]; [[5; 6]; [7; 8]]] in
+  wf_nestedb 2 2 2 x = true /\
+  long_to_nested None (nested_to_long x) =
+    mkN KSeries [default_name 0; default_name 1] [[[3; 4]; [1; 2]]; [[7; 8]; [5; 6]]] /\
+  run_path [E_N_M; E_M_A; E_A_T; E_T_N KSeries] (RN x) =
+    Ok (RN (mkN KSeries [NInt 0] [[[1; 2; 3; 4]]; [[5; 6; 7; 8]]])).
+Proof. vm_compute. repeat split. Qed.
